@@ -18,7 +18,7 @@ const c08Rule = "case = exporter address + NetFlow v5 datagram: 24-octet header 
 	"(biased to 0,1,2,29,30,31 and beyond) x 48-octet records (zero, all-ones, every-octet-distinct, random) x datagram length " +
 	"(exact, one record short, one octet short, trailing octets, extra records, cut header); oracle = for version 5, count 1..30 and enough octets " +
 	"exactly count flows with all 20 fields big-endian exact and header exact, and the JSON parses to the same numbers with dotted addresses; " +
-	"otherwise no flows and nothing to publish; non-trivial = count >= 2 decoded or a boundary case (count 0/30/31, short by one record/octet, trailing octets); distinct by hash"
+	"otherwise no flows and nothing to publish; one case in eight is additionally decoded and encoded by 6 goroutines at once (shared scratch state shows as a mismatch); non-trivial = count >= 2 decoded or a boundary case (count 0/30/31, short by one record/octet, trailing octets); distinct by hash"
 
 type c08Case struct {
 	Exporter wire.Hex       `json:"exporter"`
@@ -172,6 +172,13 @@ func TestC08(t *testing.T) {
 	rapid.Check(t, func(t *rapid.T) {
 		c := c08Case{Exporter: wire.GenExporter(t), Pkt: wire.GenNF5(t)}
 		v, sig, err := runC08(&c)
+		if err == nil && len(c.Pkt.Recs) > 0 && rapid.IntRange(0, 7).Draw(t, "twins") == 0 {
+			// the same packet decoded and encoded by several goroutines at once, as the workers do
+			if e := concurrently(6, func() error { _, _, e := runC08(&c); return e }); e != nil {
+				sig, err = "concurrent", fmt.Errorf("decoded and encoded by 6 goroutines at once: %v", e)
+			}
+			v.label(true, "concurrent-twins")
+		}
 		col.report(t, mustJSON(c), v, sig, err)
 	})
 }
